@@ -167,7 +167,10 @@ func c12genPacket(rng *core.Rng, tag string) c12packet {
 	}
 	npairs := rng.Intn(core.Pick(rng, []int{1, 4, 10, 50, 50, 600}))
 	for n := npairs; n > 0; n-- {
-		k := core.Pick(rng, []string{"database", "application_name", "client_encoding", "options", "user", "DateStyle", rng.Ident(1 + rng.Intn(10)), "ключ" + rng.Ident(2), "_pq_." + rng.Ident(1+rng.Intn(8)), "_pq_.", "_pq_", "pq." + rng.Ident(3), "replication", "search_path", "TimeZone", "IntervalStyle", "extra_float_digits", "server_version", "is_superuser", "session_authorization"})
+		k := core.Pick(rng, []string{"database", "application_name", "client_encoding", "options", "user", "DateStyle", rng.Ident(1 + rng.Intn(10)), "ключ" + rng.Ident(2), "_pq_." + rng.Ident(1+rng.Intn(8)), "_pq_.", "_pq_", "pq." + rng.Ident(3), "replication",
+			// names that look like credentials or like something a server may want to treat specially: to the
+			// protocol they are parameters like any other
+			"password", "Password", "passwd", "auth_token", "client_secret", "Upstream.Password", "sslpassword", "passfile", "sslkey", "krbsrvname", "gssencmode", "sslmode", "channel_binding", "target_session_attrs", "host", "port", "search_path", "TimeZone", "IntervalStyle", "extra_float_digits", "server_version", "is_superuser", "session_authorization"})
 		v := core.Pick(rng, []string{"", "v" + tag, rng.Text(1+rng.Intn(40), true), strings.Repeat("v", 2000), "-c user=postgres", "--application_name=x -c geqo=off", "-c search_path=public -e", "LATIN1"})
 		if npairs > 20 && len(v) > 60 {
 			v = v[:8] // keep the whole packet below the 64 KiB message limit of the harness servers
